@@ -60,6 +60,9 @@ class StateView:
     def alloc(self, obj):
         return z3.Select(self._st.alloc, unwrap(obj).ref)
 
+    def alloc_ref(self, ref):
+        return z3.Select(self._st.alloc, ref)
+
     def heap(self, key):
         return self._st.heap.get(key)
 
@@ -115,7 +118,8 @@ class SeqView:
         return self._v.len
 
     def __getitem__(self, i):
-        return wrap(self._ex, self._st, self._v.at(ty.to_z3num(i)))
+        v = self._v.at(ty.to_z3num(i))
+        return wrap(self._ex, self._st, v)
 
     def comp(self, k=0):
         return self._v.arrs[k]
@@ -130,10 +134,16 @@ class MapView:
         self._ex, self._st, self._v = ex, st, v
 
     def has(self, k):
-        return self._v.has(unwrap(k))
+        k = unwrap(k)
+        if isinstance(k, ty.OptV):
+            return z3.And(z3.Not(k.isnone), self._v.has(k.val))
+        return self._v.has(k)
 
     def __getitem__(self, k):
-        return wrap(self._ex, self._st, self._v.at(unwrap(k)))
+        k = unwrap(k)
+        if isinstance(k, ty.OptV):
+            k = k.val
+        return wrap(self._ex, self._st, self._v.at(k))
 
     @property
     def keys(self):
